@@ -5,7 +5,7 @@
     function, [k] the constants of download.go (the theorems hold for every value of them), the registry and the CDN
     are universally quantified response lists ([penv]); [pull H true k] is the code after the C03 fix patches. *)
 From Coq Require Import List NArith ZArith Bool Lia.
-From V Require Import Common.Bytes Pull.Challenge Pull.ChallengeProofs Pull.Download Pull.StoreProofs Pull.LayoutProofs Pull.Witnesses.
+From V Require Import Common.Bytes Pull.Challenge Pull.ChallengeProofs Pull.Download Pull.StoreProofs Pull.LayoutProofs Pull.RetryProofs Pull.Witnesses.
 Import ListNotations.
 Open Scope Z_scope.
 
@@ -154,3 +154,48 @@ Proof.
     + rewrite iter_n_succ_r, poisoned_for_ever in Hn. discriminate.
 Qed.
 Print Assumptions C03_retry_refuted.
+
+(** partial: the retry clause holds when HEAD never reported a wrong Content-Length in the history (then every part
+    record on disk stays within its blob).  After any such history of attempts against otherwise arbitrary
+    registries/CDNs (any failures, truncations, corrupt bytes, cancellations), at most [number of layers] failing
+    fault-free attempts are followed by a successful one; each failing one consumes (and removes) the corrupt resume
+    state of one layer.  [content] is what the registry publishes: [published] says every layer of the manifest is valid
+    and [content] of its digest has that digest. *)
+Theorem C03_retry_possible_partial :
+  forall (H : bytes -> digest) (k : consts) (content : digest -> bytes) (h : list (N * penv)) name m,
+    0 < c_min k <= c_max k -> c_retries k <> O ->
+    Forall (truthful_attempt content) h -> published H content (all_layers m) ->
+    exists j, (j <= length (all_layers m))%nat /\
+      pull_result (pull H true k (iter_n j (fun s => pull_store (pull H true k s name (clean_penv k content m))) (run_history H k empty_store h))
+                        name (clean_penv k content m)) = PSuccess.
+Proof. intros H k content h name m Hk Hr Ht Hp. exact (retry_after_history H k content Hk Hr h name m Ht Hp). Qed.
+Print Assumptions C03_retry_possible_partial.
+
+(** non-vacuity: a truthful history after which the first fault-free attempt fails and the second succeeds *)
+Example C03_retry_example :
+  Forall (truthful_attempt toy_content) [(7%N, interrupted_corrupt)] /\ published toyH toy_content (all_layers toyM) /\
+  pull_result (clean_retry stale_store) = PFail /\ pull_result (clean_retry (retry_store stale_store)) = PSuccess.
+Proof.
+  split; [|split; [|exact stale_first_retry_fails_second_succeeds]].
+  - constructor; [|constructor]. cbn. split; [intros t [= <-]; reflexivity|]. split; [intros t; discriminate|exact I].
+  - intros l [<-|[<-|[]]]; split; reflexivity.
+Qed.
+
+(** ... and without any guard once the server has been restarted (PruneLayers at start removes all resume state): after
+    any history whatsoever, a restart followed by one fault-free attempt succeeds; the restart keeps every name sound. *)
+Theorem C03_retry_after_restart :
+  forall (H : bytes -> digest) (k : consts) (content : digest -> bytes) (h : list (N * penv)) name m,
+    0 < c_min k <= c_max k -> c_retries k <> O -> published H content (all_layers m) ->
+    let st := startup_prune (run_history H k empty_store h) in
+    names_sound H st /\ pull_result (pull H true k st name (clean_penv k content m)) = PSuccess.
+Proof.
+  intros H k content h name m Hk Hr Hp.
+  destruct (history_inv H k h empty_store (blobs_ok_empty H) (names_sound_empty H)) as [Hok Hns].
+  split; [apply startup_prune_names, Hns|].
+  exact (retry_after_restart H k content Hk Hr _ name m Hp Hok).
+Qed.
+Print Assumptions C03_retry_after_restart.
+
+Example C03_retry_after_restart_example :
+  pull_result (clean_retry poisoned) = PFail /\ pull_result (clean_retry (startup_prune poisoned)) = PSuccess.
+Proof. vm_compute. split; reflexivity. Qed.
